@@ -42,6 +42,8 @@ enum Ent {
     Clock(u64),
     F(u64),
     E(u64, Vec<KV>, (String, u64, u64)),
+    /// what blocking_flush on the destination tree returned (asked before emitting)
+    Flush(bool),
 }
 
 #[derive(Clone, Default)]
@@ -87,7 +89,14 @@ fn snapshot<P: Props>(evt: &Event<P>) -> (Vec<KV>, (String, u64, u64)) {
         props.push((k.get().to_string(), as_i64(&v).unwrap_or(i64::MIN)));
         ControlFlow::Continue(())
     });
-    (props, extent_obs(evt.extent()))
+    let mut x = extent_obs(evt.extent());
+    // the accessors of the event must say what its extent says
+    let ts_ok = evt.ts() == evt.extent().map(|e| e.as_point());
+    let start_ok = evt.ts_start() == evt.extent().and_then(|e| e.as_range()).map(|r| &r.start);
+    if !ts_ok || !start_ok {
+        x.0 = format!("{}-but-ts-accessors-disagree", x.0);
+    }
+    (props, x)
 }
 
 /// Values are integers in the model; what the entry points add themselves (evt_kind,
@@ -194,6 +203,39 @@ fn pairs(v: &Value) -> Vec<(&'static str, i64)> {
     v.as_array().unwrap().iter().map(|e| (leak_str(e["k"].as_str().unwrap()), e["v"].as_i64().unwrap())).collect()
 }
 
+// ---- plain `fn` pointers as filter / destination ------------------------------------------
+// A fn pointer carries no state: the (single) fn-pointer filter leaf and the (single)
+// fn-pointer destination of a configuration find theirs here.
+thread_local! {
+    static FN_FILTER: std::cell::RefCell<Option<(Log, u64, String)>> = std::cell::RefCell::new(None);
+    static FN_EMITTER: std::cell::RefCell<Option<(Log, u64)>> = std::cell::RefCell::new(None);
+}
+
+fn fn_filter(evt: Event<&dyn ErasedProps>) -> bool {
+    FN_FILTER.with(|c| {
+        let c = c.borrow();
+        let (log, id, pred) = c.as_ref().unwrap_or_else(|| tool_error("fn-pointer filter without its slot"));
+        log.push(Ent::F(*id));
+        eval_pred(pred, &evt)
+    })
+}
+
+fn fn_emitter(evt: Event<&dyn ErasedProps>) {
+    FN_EMITTER.with(|c| {
+        let c = c.borrow();
+        let (log, id) = c.as_ref().unwrap_or_else(|| tool_error("fn-pointer destination without its slot"));
+        let (p, x) = snapshot(&evt);
+        log.push(Ent::E(*id, p, x));
+    })
+}
+
+fn none_f() -> DF {
+    Box::new(None::<DF>)
+}
+fn none_e() -> DE {
+    Box::new(None::<DE>)
+}
+
 // ---- dynamic (type-erased) construction --------------------------------------------------
 type DF = Box<dyn ErasedFilter + Send + Sync>;
 type DE = Box<dyn ErasedEmitter + Send + Sync>;
@@ -212,8 +254,27 @@ fn dyn_filter(t: &Value, log: &Log) -> DF {
         }
         "none" => Box::new(None::<DF>),
         "opt" => Box::new(Some(dyn_filter(&t["t"], log))),
-        "and" => Box::new(dyn_filter(&t["l"], log).and_when(dyn_filter(&t["r"], log))),
-        "or" => Box::new(dyn_filter(&t["l"], log).or_when(dyn_filter(&t["r"], log))),
+        "fnleaf" => {
+            FN_FILTER.with(|c| *c.borrow_mut() = Some((log.clone(), t["id"].as_u64().unwrap(), t["p"].as_str().unwrap().to_string())));
+            let f: fn(Event<&dyn ErasedProps>) -> bool = fn_filter;
+            Box::new(f)
+        }
+        "always" => Box::new(filter::always()),
+        // both sides put in place afterwards, taken apart and joined again
+        "and" => {
+            let mut a = And::new(none_f(), none_f());
+            *a.left_mut() = dyn_filter(&t["l"], log);
+            *a.right_mut() = dyn_filter(&t["r"], log);
+            let (l, r) = a.into_inner();
+            Box::new(l.and_when(r))
+        }
+        "or" => {
+            let mut a = Or::new(none_f(), none_f());
+            *a.left_mut() = dyn_filter(&t["l"], log);
+            *a.right_mut() = dyn_filter(&t["r"], log);
+            let (l, r) = a.into_inner();
+            Box::new(l.or_when(r))
+        }
         "ref" => {
             let r: &'static DF = Box::leak(Box::new(dyn_filter(&t["t"], log)));
             Box::new(r)
@@ -246,8 +307,23 @@ fn dyn_emitter(t: &Value, log: &Log) -> DE {
         }
         "none" => Box::new(None::<DE>),
         "opt" => Box::new(Some(dyn_emitter(&t["t"], log))),
-        "and" => Box::new(dyn_emitter(&t["l"], log).and_to(dyn_emitter(&t["r"], log))),
-        "wrap" => Box::new(dyn_emitter(&t["t"], log).wrap_emitter(emitter::wrapping::from_filter(dyn_filter(&t["f"], log)))),
+        "fnleaf" => {
+            FN_EMITTER.with(|c| *c.borrow_mut() = Some((log.clone(), t["id"].as_u64().unwrap())));
+            let f: fn(Event<&dyn ErasedProps>) = fn_emitter;
+            Box::new(f)
+        }
+        "and" => {
+            let mut a = And::new(none_e(), none_e());
+            *a.left_mut() = dyn_emitter(&t["l"], log);
+            *a.right_mut() = dyn_emitter(&t["r"], log);
+            let (l, r) = a.into_inner();
+            Box::new(l.and_to(r))
+        }
+        "wrap" => {
+            let inner = dyn_emitter(&t["t"], log);
+            let w = emitter::wrapping::from_filter(dyn_filter(&t["f"], log));
+            with_wrapping(inner, w, t["wf"].as_str().unwrap_or("owned"))
+        }
         "ref" => {
             let r: &'static DE = Box::leak(Box::new(dyn_emitter(&t["t"], log)));
             Box::new(r)
@@ -264,15 +340,33 @@ fn dyn_emitter(t: &Value, log: &Log) -> DE {
         "assert" => Box::new(emit::runtime::AssertInternal(dyn_emitter(&t["t"], log))),
         "wrapfn" => {
             let kind = t["kind"].as_str().unwrap().to_string();
-            Box::new(dyn_emitter(&t["t"], log).wrap_emitter(emitter::wrapping::from_fn(move |output, evt| match kind.as_str() {
+            let w = emitter::wrapping::from_fn(move |output, evt| match kind.as_str() {
                 "drop" => {}
                 "pass" => output.emit(evt),
                 "prepend" => output.emit(evt.map_props(|p| ("a", 77i64).and_props(p))),
                 k => tool_error(&format!("wrapfn kind {k}")),
-            })))
+            });
+            with_wrapping(dyn_emitter(&t["t"], log), w, t["wf"].as_str().unwrap_or("owned"))
         }
         "rt" => Box::new(nested_runtime(t, dyn_emitter(&t["t"], log), log)),
         _ => tool_error(&format!("emitter op {op}")),
+    }
+}
+
+/// The wrapping given by value, borrowed (`Wrapping for &T`) or type-erased
+/// (`&(dyn ErasedWrapping + Send + Sync)`).
+fn with_wrapping<W: emitter::wrapping::Wrapping + Send + Sync + 'static>(inner: DE, w: W, form: &str) -> DE {
+    match form {
+        "owned" => Box::new(emitter::wrap(inner, w)),
+        "ref" => {
+            let r: &'static W = Box::leak(Box::new(w));
+            Box::new(inner.wrap_emitter(r))
+        }
+        "erased" => {
+            let r: &'static (dyn emitter::wrapping::ErasedWrapping + Send + Sync) = Box::leak(Box::new(w));
+            Box::new(inner.wrap_emitter(r))
+        }
+        f => tool_error(&format!("wrapping form {f}")),
     }
 }
 
@@ -496,6 +590,7 @@ fn run_entry<F: Filter, CF: Filter, E: Emitter>(cfg: &Value, rtf: F, csf: Option
     let ctxt = FixedCtxt { props: pairs(&cfg["ambient"]), id: 0, log: log.clone() };
     let evt = Event::new(emit::Path::new_raw("m"), emit::Template::literal("t"), ext.clone(), own);
     let entry = cfg["entry"].as_str().unwrap();
+    log.push(Ent::Flush(em.blocking_flush(Duration::from_millis(2))));
     match entry {
         "direct" => em.emit(evt),
         "core" => emit_core::emit(&em, &rtf, &ctxt, &clock, evt),
@@ -517,7 +612,7 @@ fn run_entry<F: Filter, CF: Filter, E: Emitter>(cfg: &Value, rtf: F, csf: Option
 
 /// The entry points that build the event themselves or through other macros; exercised with
 /// type-erased components only (keeps the stamped generic instantiations small).
-const EXTRA_ENTRIES: [&str; 6] = ["macro_lvl", "evt_macro", "span_evt", "metric_evt", "span_guard", "span_macro"];
+const EXTRA_ENTRIES: [&str; 7] = ["rt_with", "macro_lvl", "evt_macro", "span_evt", "metric_evt", "span_guard", "span_macro"];
 
 fn run_entry_extra(cfg: &Value, rtf: DF, csf: Option<DF>, em: DE, log: &Log) -> Vec<Ent> {
     let own = pairs(&cfg["own"]);
@@ -528,7 +623,16 @@ fn run_entry_extra(cfg: &Value, rtf: DF, csf: Option<DF>, em: DE, log: &Log) -> 
     let ctxt = FixedCtxt { props: pairs(&cfg["ambient"]), id: 0, log: log.clone() };
     let entry = cfg["entry"].as_str().unwrap();
     let rt = Runtime::build(em, rtf, ctxt, clock, emit::Empty);
+    // (through `Emitter for Runtime`)
+    log.push(Ent::Flush(Emitter::blocking_flush(&rt, Duration::from_millis(2))));
     match (entry, csf) {
+        // the event put together with the builder methods
+        ("rt_with", _) => rt.emit(
+            Event::new(emit::Path::new_raw("x"), emit::Template::literal("t"), emit::Empty, emit::Empty)
+                .with_mdl(emit::Path::new_raw("m"))
+                .with_extent(ext)
+                .with_props(own),
+        ),
         ("macro_lvl", None) => emit::info!(rt, extent: ext, props: own, "t"),
         ("macro_lvl", Some(cf)) => emit::info!(rt, when: cf, extent: ext, props: own, "t"),
         ("evt_macro", None) => {
@@ -733,6 +837,7 @@ fn ent_json(e: &Ent) -> Value {
         Ent::Ctxt(id) => json!({"t": "ctxt", "id": id}),
         Ent::Clock(id) => json!({"t": "clock", "id": id}),
         Ent::F(id) => json!({"t": "f", "id": id}),
+        Ent::Flush(ok) => json!({"t": "flush", "ok": ok}),
         Ent::E(id, p, x) => json!({"t": "e", "id": id,
             "ev": {"props": p.iter().map(|(k, v)| json!({"k": k, "v": v})).collect::<Vec<_>>(),
                    "ext": {"kind": x.0, "a": x.1, "b": x.2}}}),
@@ -740,7 +845,8 @@ fn ent_json(e: &Ent) -> Value {
 }
 
 fn log_json(l: &[Ent]) -> Value {
-    json!(l.iter().map(ent_json).collect::<Vec<_>>())
+    // (the flush observation is not part of the transcription's log)
+    json!(l.iter().filter(|e| !matches!(e, Ent::Flush(_))).map(ent_json).collect::<Vec<_>>())
 }
 
 fn ids(v: &Value) -> Vec<u64> {
@@ -798,6 +904,15 @@ fn judge(log: &[Ent], case: &Value, checks: &mut u64) -> Vec<Value> {
     wr.dedup();
     if wr != ids(&ex["wraps"]) {
         bad.push(json!({"clause": "wrapping-filters", "want_consulted": ids(&ex["wraps"]), "got": wr}));
+    }
+    // the tree has flushed when all its destinations have
+    for e in log {
+        if let Ent::Flush(ok) = e {
+            *checks += 1;
+            if Some(*ok) != ex["flush"].as_bool() {
+                bad.push(json!({"clause": "blocking-flush", "want": ex["flush"], "got": ok}));
+            }
+        }
     }
     // emitting straight to a destination bypasses clock and ambient context
     if ex["bypass"].as_bool().unwrap() {
